@@ -11,7 +11,6 @@ import (
 	"io/fs"
 	"os"
 	"path"
-	"path/filepath"
 	"regexp"
 	"strings"
 
@@ -130,7 +129,7 @@ func rebuildFormatCommand() {
 
 func processAll(ctxt *processors.Context, checkOnly bool) error {
 	failed := false
-	err := filepath.WalkDir(ctxt.RootContext().AssemblyDir(), func(filePath string, d fs.DirEntry, err error) error {
+	err := utils.WalkDir(ctxt.RootContext().AssemblyDir(), func(filePath string, d fs.DirEntry, err error) error {
 		if err != nil {
 			// abort
 			logger.Error().Err(err).Msg("failed to walk directories")
